@@ -15,6 +15,8 @@ import (
 	"github.com/bytom/bytom/proposal"
 	"github.com/bytom/bytom/protocol/bc"
 	"github.com/bytom/bytom/protocol/bc/types"
+
+	"verif/sim/model"
 )
 
 // idPropose builds a block on parent at slot k with the real proposer of a node
@@ -45,6 +47,12 @@ func (w *World) idPropose(parent bc.Hash, k int, txs []*types.Tx) *ProposeResult
 		return res
 	}
 	n.SetKey(key)
+	// The proposer lists the reward payees of an epoch in map order (its own first);
+	// with three or more payees the reward block, hence every id derived from it,
+	// would differ from one execution to the next. Validators therefore share two
+	// payee programs (by key index parity), which keeps every run replayable and
+	// still yields reward coinbases with one and with two outputs.
+	n.setCoinbaseProgram(w.Keys[key.Idx%2].Program)
 	for _, tx := range txs {
 		n.SubmitTx(tx)
 		time.Sleep(time.Millisecond)
@@ -63,7 +71,7 @@ func (w *World) idPropose(parent bc.Hash, k int, txs []*types.Tx) *ProposeResult
 
 // idProduceTree runs the production phase of a TreePlan (warm-up chain, then the
 // drawn steps). Problems that belong to other properties are counted, not reported.
-func (w *World) idProduceTree(p *TreePlan) []*Produced {
+func (w *World) idProduceTree(p *TreePlan, extra ...func(pst *model.BlockState, step int, txs []*types.Tx) []*types.Tx) []*Produced {
 	r := w.R
 	if err := w.InitSnapshots(); err != nil {
 		r.Violate("init", "", "node cannot initialise an empty store: %v", err)
@@ -76,6 +84,9 @@ func (w *World) idProduceTree(p *TreePlan) []*Produced {
 	}
 	steps = append(steps, p.Steps...)
 	for i, st := range steps {
+		if r.Failed() {
+			return out
+		}
 		parent := w.ParentFor(st.Back)
 		pst := w.Tree.Nodes[parent]
 		if pst.Invalid != nil || w.snaps[parent] == nil {
@@ -92,6 +103,15 @@ func (w *World) idProduceTree(p *TreePlan) []*Produced {
 			}
 		}
 		txs := w.MakeTxs(pst, st.Txs, i)
+		for _, f := range extra {
+			// further transactions of the calling check for this block (post warm-up steps only)
+			if i >= p.Warm {
+				txs = f(pst, i-p.Warm, txs)
+			}
+		}
+		if r.Failed() {
+			return out
+		}
 		skip := st.Skip
 		w.Jitter = uint64(st.Jit)
 		res := w.idPropose(parent, skip, txs)
